@@ -856,7 +856,7 @@ impl<'a> GeneratorState<'a> {
                     let (left, right) = self.generate_operands(lhs, rhs, pos, false, second_time)?;
                     self.generate_shift(&left, op, &right, pos, high_byte)
                 }
-                Operation::TernaryCond1 => self.generate_ternary(lhs, rhs, pos),
+                Operation::TernaryCond1 => self.generate_ternary(lhs, rhs, pos, high_byte),
                 Operation::TernaryCond2 => Err(self
                     .compiler_state
                     .syntax_error("Unexpected ':'. Probably a ';' typo", pos)),
